@@ -736,6 +736,9 @@ def check_C14(tier, seed, rest):
     from api import api_run
     r = api_run("api", tier, seed, API_CFGS)
     v = [api_violation(f) for f in r["findings"] if f["kind"] == "api"]
+    # an IN-RANGE bump is part of C14's histories: one that the specification lets succeed and the lexer refuses
+    # (or performs differently) breaks C14; what a bump does with an out-of-range argument is C15's business
+    v += [api_violation(f) for f in r["findings"] if f["kind"] == "bump" and isinstance(f.get("expected"), dict) and f["expected"]["res"][0] == "ok"]
     finish("C14", tier, seed, "model_checking", api_coverage(r), v, t0, ["pairs of definitions are the three hand-written pairs of lib/api.py (str, str with multi-byte characters, bytes)", "reference lexer as in C01"])
 
 
